@@ -1,4 +1,7 @@
 import PW.Proofs.ApplyMatrixSem
+import PW.Proofs.ApplyVector
+import PW.Proofs.LevelIndep
+import PW.Props.Tables
 import PW.Proofs.Basic
 import PW.Spec
 /-!
@@ -25,6 +28,39 @@ theorem apply_operator_matrix_is_applyOn (dims : List Nat) (T : List Nat) (hnd :
   unfold Spec.applyOn Spec.subst targetM
   simp only [List.take_left' hr, List.drop_left' hr]
 
+/-- **Vector level.** The generated plan of `apply_operator_vector` (state stored with a trailing
+axis of length 1) is the specification `applyVec` = `(O_T ⊗ I)ψ` — for all `n`, `T`, dimensions. -/
+theorem apply_operator_vector_is_applyVec (dims : List Nat) (T : List Nat) (hnd : T.Nodup)
+    (hlt : ∀ p ∈ T, p < dims.length) (O ψ : Tensor R) (idx : List Nat) (hidx : idx.length = dims.length) :
+    einsum (Spec.dimOf2 dims) (applyOperatorVector dims.length T).1 (applyOperatorVector dims.length T).2
+        [O, ψ] (idx ++ [0])
+      = Spec.applyVec dims T O (fun i => ψ (i ++ [0])) idx := by
+  rw [applyOperatorVector_sem dims.length T hnd hlt (Spec.dimOf2 dims) O ψ idx hidx]
+  rfl
+
+/-- **Representation independence.** Whether the data is held as a vector or as the density matrix
+of that vector, the operation yields the same physical state:
+`(O_T⊗I)|ψ⟩⟨ψ|(O_T⊗I)† = |(O_T⊗I)ψ⟩⟨(O_T⊗I)ψ|`. -/
+theorem vector_and_matrix_level_agree (dims : List Nat) (T : List Nat) (hlt : ∀ p ∈ T, p < dims.length)
+    (O ψ : Tensor R) (r c : List Nat) (hr : r.length = dims.length) (hc : c.length = dims.length) :
+    Spec.applyOn dims T O (Spec.outer dims.length ψ) (r ++ c)
+      = Spec.outer dims.length (Spec.applyVec dims T O ψ) (r ++ c) := by
+  rw [Spec.applyOn_outer dims T hlt O ψ r c hr hc]
+  unfold Spec.outer
+  rw [List.take_left' hr, List.drop_left' hr]
+
+/-- which operation types renormalise is the source's table (regenerated on every run) -/
+theorem renormalise_table : PW.Generated.opTable = PW.TablesSpec.expectedOps :=
+  PW.Props.Tables.op_table_as_expected
+
+/-- the hard-coded einsum strings of the five apply bodies are the expected ones -/
+theorem hardcoded_strings : PW.Generated.hardcodedEinsum = PW.TablesSpec.expectedHardcoded :=
+  PW.Props.Tables.hardcoded_einsum_as_expected
+
 end PW.Props.C01
 
 #print axioms PW.Props.C01.apply_operator_matrix_is_applyOn
+#print axioms PW.Props.C01.apply_operator_vector_is_applyVec
+#print axioms PW.Props.C01.vector_and_matrix_level_agree
+#print axioms PW.Props.C01.renormalise_table
+#print axioms PW.Props.C01.hardcoded_strings
